@@ -415,6 +415,12 @@ class Scenario:
             if a.kind == "Rna" and c.kind == "Rna":
                 continue
             viol.append(("q2", f"data race between {a} and {c}", And(ex[a.i], ex[c.i], Not(HB[a.i][c.i]), Not(HB[c.i][a.i])), (a.i, c.i)))
+        # a plain (non-atomic) access to the count word races with every write of another thread it is not ordered with
+        for a in [e for e in evs if e.loc == "cnt" and e.ord == "na" and e is not init]:
+            for c in cw:
+                if c is init or c.th == a.th:
+                    continue
+                viol.append(("q2", f"data race on the count word between the non-atomic {a} and {c}", And(ex[a.i], ex[c.i], Not(HB[a.i][c.i]), Not(HB[c.i][a.i])), (a.i, c.i)))
         # all handles are released by construction of the programs => exactly one destroy-or-move-out
         viol.append(("q3", "the value is not destroyed-or-moved-out exactly once", Not(exactly_one(s.outcomes)), None))
         return S, viol, dict(mo=mo, rf=rf, HB=HB, ex=ex, sbm=sbm, sw=sw)
